@@ -128,3 +128,15 @@ func (h *Hist) snapshotSafe(ok bool) uint64 {
 func init() {
 	engines["hist"] = runHist
 }
+
+// Fluent methods (documented as returning the updated or unchanged container) that the hist engine issues on
+// derived receivers, and methods that return a new container. Anything else in the interfaces that returns the
+// interface type is reported as uncovered (C19: "enumerated from the interface itself, so additions are noticed").
+var fluentCovered = map[string]bool{"Add": true, "Insert": true, "Replace": true, "Delete": true, "Pop": true, "Clear": true, "Sort": true,
+	"Reverse": true, "Set": true, "Unset": true, "ForEach": true, "ForEachValue": true, "ForEachObject": true, "ForEachList": true,
+	"ForEachString": true, "ForEachBool": true, "ForEachInt": true, "ForEachFloat": true, "ForEachAsync": true, "SetTF": true, "UnsetTF": true}
+
+var returnsNew = map[string]bool{"Ego": true, "Clone": true, "Concat": true, "SubList": true, "Map": true, "MapValues": true, "MapObjects": true,
+	"MapLists": true, "MapStrings": true, "MapBools": true, "MapInts": true, "MapFloats": true, "MapAsync": true, "Filter": true,
+	"FilterObjects": true, "FilterLists": true, "FilterStrings": true, "FilterInts": true, "FilterFloats": true, "Keys": true, "Values": true,
+	"Merge": true, "Pluck": true, "GetList": true, "GetObject": true}
